@@ -5,6 +5,7 @@
 package c12
 
 import (
+	"bytes"
 	"context"
 	"encoding/json"
 	"errors"
@@ -51,17 +52,17 @@ type Exch struct {
 }
 
 type Client struct {
-	Net      string `json:"net"` // udp | tcp
-	After    int    `json:"after,omitempty"`
-	Exch     []Exch `json:"exch"`
-	Spoof    int    `json:"spoof,omitempty"`     // forged foreign-ID datagrams injected towards this client
-	Pipeline bool   `json:"pipeline,omitempty"`  // tcp: all queries are written before any reply is read; the handlers answer asynchronously
-	IntrFrame int  `json:"intr_frame,omitempty"` // with Pipeline: 1-based number of the query frame in which the server's read is interrupted once (a temporary, non-timeout error)
-	IntrOff   int  `json:"intr_off,omitempty"`   // ... after this many octets of that frame (0 before the length prefix, 1 between its octets, 2 behind it, more: inside the message)
-	SlowRead bool   `json:"slow_read,omitempty"` // with Pipeline: the client takes the first ten octets of the reply stream, pauses for three seconds, then reads on; the link's window is 256 octets in such a run, so the server's writes wait for it
-	Trickle  bool   `json:"trickle,omitempty"`   // tcp: the first query arrives in three pieces, 1.5 and 1 server read timeouts apart, the others right behind it; the server (read timeout 2 s in such a run) may give up on the connection, it must not serve anything but the requests that were sent
-	Home     int    `json:"home,omitempty"`      // udp: which of the server host's addresses this client talks to
-	TwinOf   int    `json:"twin_of,omitempty"`   // 1+index of another client of the same transport: this client's first exchange asks the very question (name, type, class) of that client's first exchange, at the same time, with an ID of its own
+	Net       string `json:"net"` // udp | tcp
+	After     int    `json:"after,omitempty"`
+	Exch      []Exch `json:"exch"`
+	Spoof     int    `json:"spoof,omitempty"`      // forged foreign-ID datagrams injected towards this client
+	Pipeline  bool   `json:"pipeline,omitempty"`   // tcp: all queries are written before any reply is read; the handlers answer asynchronously
+	IntrFrame int    `json:"intr_frame,omitempty"` // with Pipeline: 1-based number of the query frame in which the server's read is interrupted once (a temporary, non-timeout error)
+	IntrOff   int    `json:"intr_off,omitempty"`   // ... after this many octets of that frame (0 before the length prefix, 1 between its octets, 2 behind it, more: inside the message)
+	SlowRead  bool   `json:"slow_read,omitempty"`  // with Pipeline: the client takes the first ten octets of the reply stream, pauses for three seconds, then reads on; the link's window is 256 octets in such a run, so the server's writes wait for it
+	Trickle   bool   `json:"trickle,omitempty"`    // tcp: the first query arrives in three pieces, 1.5 and 1 server read timeouts apart, the others right behind it; the server (read timeout 2 s in such a run) may give up on the connection, it must not serve anything but the requests that were sent
+	Home      int    `json:"home,omitempty"`       // udp: which of the server host's addresses this client talks to
+	TwinOf    int    `json:"twin_of,omitempty"`    // 1+index of another client of the same transport: this client's first exchange asks the very question (name, type, class) of that client's first exchange, at the same time, with an ID of its own
 }
 
 type Scenario struct {
@@ -499,9 +500,9 @@ type run struct {
 	serveRet  int
 	doneSeq   int
 	shared    map[string]*dns.Client // with Scenario.Shared: the one Client per transport
-	dialed    map[string]*dialRec // exchanges that go through the library's own dial
-	rawConn   map[int]bool        // client connections the harness writes octet by octet
-	connReply map[string][]*wrec  // server-side remote address -> replies handlers handed to the writer there, in order of hand-over
+	dialed    map[string]*dialRec    // exchanges that go through the library's own dial
+	rawConn   map[int]bool           // client connections the harness writes octet by octet
+	connReply map[string][]*wrec     // server-side remote address -> replies handlers handed to the writer there, in order of hand-over
 }
 
 // wrec is one reply a handler handed to its ResponseWriter.
@@ -1745,6 +1746,29 @@ func (x *run) fin(b *bool) {
 	x.k.Unlock()
 }
 
+// invalidCB is the application's MsgInvalidFunc: it takes its time over the octets it is given (a log line, a
+// metric, a look at the source), and they have to stay what they were for as long as it runs - also while
+// other datagrams arrive.
+//
+//go:norace
+func (x *run) invalidCB(m []byte, err error) {
+	k := x.k
+	first := clone(m)
+	k.Yield("invalid.cb", 0)
+	if x.sc.RunSeed%3 == 0 {
+		k.Sleep("invalid.cb.slow", 3*time.Millisecond)
+	} else {
+		k.WaitSteps("invalid.cb.steps", 4, time.Millisecond)
+	}
+	k.Yield("invalid.cb.read", 0)
+	k.Lock()
+	x.res.Stats["oracle.B1_invalid_callback_octets_stable"]++
+	if !bytes.Equal(first, m) {
+		x.res.Fail("B1", "invalid-callback-octets-changed", "the %d octets handed to MsgInvalidFunc (%v) changed while the callback was looking at them:\nfirst: %x\nlater: %x", len(first), err, first[:min(len(first), 40)], m[:min(len(m), 40)])
+	}
+	k.Unlock()
+}
+
 // junkTask is a stranger that sends the UDP server datagrams it must not hand
 // to the handler: responses, unsupported opcodes, fragments shorter than a header.
 type junkTask struct{ x *run }
@@ -1774,7 +1798,7 @@ func (j *junkTask) RunEvent(time.Time) {
 			b = b[:12]
 			b[2] |= 0x80 // a bare header with QR set
 		default:
-			b = []byte{0xc3, 0x50, 0x80}
+			b = []byte{0xc3, 0x50, 0x80, byte(i), 0xee, 0xee, 0xee, 0xee, 0xee, 0xee, 0xee}[:1+(int(x.sc.RunSeed/5)+3*i)%11]
 		}
 		k.Lock()
 		x.n.InjectToServer(x.pc, simnet.Addr{N: "udp", S: "10.9.9.9:999"}, b, time.Millisecond)
@@ -1889,6 +1913,10 @@ func runExchange(sc *Scenario, res *core.Result, verbose bool) {
 			if c.Trickle {
 				s.ReadTimeout = trickleTimeout
 			}
+		}
+		if sc.RunSeed%2 == 0 {
+			// an application that looks at what it is told was invalid (the other half of the runs leaves the default)
+			s.MsgInvalidFunc = x.invalidCB
 		}
 		if sc.Decorate {
 			slow := []time.Duration{0, 0, 2 * time.Millisecond, 20 * time.Millisecond}[sc.RunSeed%4]
